@@ -272,12 +272,15 @@ def run_case(desc):
             # direct: render after every notification under the observer's own lock, plus once at the end
             busy_so_far = 0.0
             running_now = 0
+            skip_first = [0, 0, 0, 10 ** 9, len(seq) // 2][desc["seed"] % 5]
             for k, (th, op, section, sc, arg, dtm) in enumerate(seq):
                 if running_now > 0:
                     busy_so_far += dtm
                 clock.advance(dtm)
                 emit(op, section, sc, arg, k)
                 running_now += 1 if op == "running" else (-1 if op in ("completed", "failed") else 0)
+                if k < skip_first:
+                    continue  # (a quick run: the display's first rendering comes late, possibly only at the end)
                 try:
                     with obs._lock:
                         v = obs._do_render()
